@@ -351,6 +351,26 @@ def run(chk, repo, tier):
         okh = okh and len(sup) == 1 and len(st) == 1 and st[0].target == sup[0].result and \
             st[0].data['value'] == nf.attr(SELF, 'focal_length') and p.ret == sup[0].result
     chk.ob('C07-e', 'D-flow', fp.key, "the product takes the pupil's focal length (set on the new wavefront)", okh, '', fp.loc())
+    # every product is rebuilt through the constructor: a focal length handed to it is kept whatever its sign or size
+    fi, ipaths, _ = analyse(repo, 'wavefront.Wavefront.__init__', config={'focal_length': S('focal_length')})
+    FL = S('focal_length')
+    okk, detk, nst = True, '', 0
+    for p in (q for q in ipaths if q.status != 'raise'):
+        st = [e for e in p.writes() if e.data.get('how') == 'attrstore' and e.data.get('attr') == 'focal_length' and e.target == SELF]
+        if not st:
+            continue
+        nst += 1
+        v = st[-1].data['value']
+        va = v.single_atom() if isinstance(v, Poly) else None
+        infinite = va is not None and (va == ('val', 'inf') or va[0] == 'val' and 'inf' in str(va[1])) or 'inf' in fmt(v)
+        tested = [c for c, _, _ in p.conds if ('sym', 'focal_length') in nf.value_atoms(c) and
+                  any(is_app(a, ('lt', 'le', 'gt', 'ge', 'isfinite', 'isclose')) for a in nf.value_atoms(c))]
+        if tested or not (v == FL or infinite):
+            okk = False
+            detk = (f'stored as {fmt(v)[:80]}' if not tested else f'the value kept depends on `{fmt(tested[0])[:80]}`') + \
+                ': a diverging or very long focal length is lost when a later plane rebuilds the wavefront'
+    chk.ob('C07-e', 'D-flow', fi.key, 'a focal length given to the constructor is stored as given (infinite only when none is given)',
+           okk if nst else None, detk or ('undecided: no store of focal_length found' if not nst else ''), fi.loc())
 
     # planes that refine Plane (pupil, image, tilt elements) still act as the phasor: whatever else they do, every way
     # through their multiply hands the wavefront to Plane.multiply and returns its product
